@@ -12,7 +12,7 @@ PROP = {
             "before indexing or by update_config afterwards; 5 configs per workspace (quick: 16 x 1200 workspaces, thorough: 16 x 40000); baselines are taken three times and codes whose diagnostics differ between identical runs are left out for that workspace; a violation must repeat in three evaluations; distinct = FNV of config JSON + file texts; "
             "non-trivial = all-codes baseline has >= 8 diagnostics and the config has >= 2 entries",
     "min_nontrivial": {"quick": 25000, "thorough": 1000000},
-    "max_secs": {"quick": 50, "thorough": 900},
+    "max_secs": {"quick": 600, "thorough": 1500},
     "require_clauses": ["b:enables-anchor", "a:disable-of-firing-code", "a:file-enable-beats-disable", "b:enables-of-firing-code", "c:severity-of-firing-code",
                         "d:globals-hit", "d:globalsRegex-hit", "e:meta-file-silent", "e:library-file-silent", "f:enable-false",
                         "std-files-silent", "late-config-switch"],
